@@ -2837,6 +2837,7 @@ public:
 
     number_t num_elems = (*ub - *lb) / e_sz;
     number_t e = *ub;
+    bool truncated = false;
     if (num_elems >
         crab_domain_params_man::get().array_adaptive_max_array_size()) {
       e = *lb +
@@ -2844,13 +2845,23 @@ public:
                 crab_domain_params_man::get().array_adaptive_max_array_size()) -
             1) *
            e_sz);
-      CRAB_WARN("array adaptive store range will ignore indexes greater than ",
+      truncated = true;
+      CRAB_WARN("array adaptive store range will not keep track of indexes "
+                "greater than ",
                 e);
     }
 
     for (number_t i = *lb; i <= e;) {
       array_store(a, elem_size, i, val, false);
       i = i + e_sz;
+    }
+
+    if (truncated) {
+      // The rest of the segment is also overwritten: its old contents
+      // must not survive.
+      array_store_unknown_cells(a, elem_size, e_sz,
+                                linear_expression_t(e + e_sz),
+                                linear_expression_t(*ub), val);
     }
   }
 
